@@ -864,8 +864,10 @@ def check(prop: str, tier: str) -> int:
         status = max(status, 1) if status != 2 else 2
     if seen_sig:
         print(f"[{prop}] violation signatures in this batch: " + ", ".join(f"{k} x{n}" for k, n in sorted(seen_sig.items())))
-    for sig, n in sorted(known_hits.items()):
-        print(f"KNOWN-FINDING: property={prop} {known[sig]['what']} [signature {sig}; hit {n}x]")
+    for sig in sorted(known):
+        n = known_hits.get(sig, 0)
+        hit = f"hit {n}x in this run" if n else "listed in known_findings.json; not hit by this run's sample"
+        print(f"KNOWN-FINDING: property={prop} {known[sig]['what']} [signature {sig}; {hit}]")
 
     if br.wall_capped:
         print(f"[{prop}] note: wall cap reached, {br.runs} of {cfg['runs']} runs executed")
